@@ -127,6 +127,51 @@ func init() {
 			}
 			cs = append(cs, c)
 		}
+		// "a mapper table whose column count disagrees with the table map is rejected with an error instead of being
+		// mis-attributed" — also when the disagreement appears later: the id is announced again with fewer / more
+		// columns and a rows event of any kind follows. The attempt must end with an error after the transactions
+		// delivered so far, and nothing of the re-defined table may be delivered.
+		for i := 0; i < n/3; i++ {
+			h := &hist{cfg: allCfgs[i%len(allCfgs)], ext: map[string][]string{}}
+			base := intHeavyTables(r, 1)[0]
+			h.tables = []*hTable{base}
+			v := &hTable{id: base.id, db: base.db, name: base.name}
+			if r.Bool() && len(base.cols) > 1 {
+				v.cols = append(v.cols, base.cols[:len(base.cols)-r.Range(1, len(base.cols)-1)]...)
+			} else {
+				v.cols = append(append(v.cols, base.cols...), hCol{typ: 3, nullable: true, name: "extra"})
+			}
+			h.tables = append(h.tables, v)
+			o := histOpts{maxRows: 2}
+			ts := uint32(1600000000)
+			good := r.Range(1, 3)
+			for u := 0; u < good; u++ {
+				ts++
+				h.units = append(h.units, hUnit{kind: "tx", ts: ts, begin: "BEGIN", closer: fmt.Sprintf("x%d", u),
+					changes: []hChange{{rows: genRows(r, h, o, 0, ts, true)}}})
+			}
+			ts++
+			bad := hUnit{kind: "tx", ts: ts, begin: "BEGIN", closer: "x99"}
+			if r.Bool() {
+				bad.changes = append(bad.changes, hChange{rows: genRows(r, h, o, 0, ts, true)})
+			}
+			bad.changes = append(bad.changes, hChange{rows: genRows(r, h, o, 1, ts, true)})
+			h.units = append(h.units, bad)
+			c := histCase(h, firstFile, 4, "redefinition-changes-column-count", true, "")
+			hh, want := h, good
+			c.Run = func(resp map[string]string) Outcome {
+				impl, calls, _ := runParse(hh, splitPackets(resp["packets"]), firstFile, 4, -1, "", false)
+				out := Outcome{Impl: normCrash(impl), Model: normCrash(resp["model"]), OracleOK: true}
+				out.CorrOK = out.Impl == out.Model
+				if !strings.HasPrefix(impl, "err@") || len(calls) != want {
+					out.OracleOK = false
+					out.FindingKey = "count-mismatch-not-rejected"
+					out.Note = fmt.Sprintf("a table id re-announced with another column count was not rejected with an error after the %d earlier transactions: %s", want, clip(impl, 200))
+				}
+				return out
+			}
+			cs = append(cs, c)
+		}
 		runCases(col, theDriver, cs)
 	}
 
@@ -204,13 +249,13 @@ func init() {
 		// the same through the real Stream(): the malformed packet arrives over TCP, Stream must return an error
 		// without delivering a partial transaction, and the next attempt must ask for the last accepted boundary
 		m := sharedMaster()
-		nl2 := 10
+		nl2 := 24
 		if tier == "thorough" {
 			nl2 = 200
 		}
 		for i := 0; i < nl2; i++ {
 			h := genHistory(r, o, allCfgs[i%len(allCfgs)])
-			ans, err := theDriver.Ask(h.line(posStr(firstFile, 4)))
+			ans, err := theDriver.Ask(h.line(posStr(h.startFile(), 4)))
 			if err != nil {
 				continue
 			}
@@ -235,7 +280,7 @@ func init() {
 			if len(bad) >= 19 && int(uint32(bad[9])|uint32(bad[10])<<8|uint32(bad[11])<<16|uint32(bad[12])<<24) == len(bad) {
 				continue
 			}
-			s, mp := newStreamer(m, h, 17, firstFile, 4)
+			s, mp := newStreamer(m, h, 17, h.startFile(), 4)
 			opts := defaultOpts()
 			opts.script = func(pk [][]byte) []action {
 				var sc []action
@@ -272,7 +317,7 @@ func init() {
 					}
 				}
 			}
-			col.AddScenario("stream-inject-malformed", fmt.Sprintf("inject=%d:%s # %s", idx, hx(bad), clip(h.line(posStr(firstFile, 4)), 300)), true, ok, true, note, key, clip(res.streamRet, 80), "")
+			col.AddScenario("stream-inject-malformed", fmt.Sprintf("inject=%d:%s # %s", idx, hx(bad), clip(h.line(posStr(h.startFile(), 4)), 300)), true, ok, true, note, key, clip(res.streamRet, 80), "")
 		}
 	}
 }
